@@ -544,6 +544,30 @@ Proof.
   - intros a p0 rid st Ha. unfold set_phase. cbn [c_ops with_ops]. rewrite nth_upd_length. exact (H a p0 rid st Ha).
 Qed.
 
+Lemma set_phase_X_free pend ex C p ph : XInv pend ex C -> free pend C p -> XInv pend ex (set_phase C p ph).
+Proof.
+  intros [A B D F G H R] Fr. constructor; change (cores (set_phase C p ph)) with (cores C);
+    change (c_clients (set_phase C p ph)) with (c_clients C); change (c_direct (set_phase C p ph)) with (c_direct C);
+    change (c_boots (set_phase C p ph)) with (c_boots C); try assumption.
+  - intros i n s qs h q p0 Hc Hq Ow Ob. unfold set_phase. cbn [c_ops with_ops]. destruct (Nat.eq_dec p0 p) as [->|N].
+    + exfalso. destruct (Fr i n s qs h q Hc Hq Ow) as [Z1 Z2]. destruct Ob as [Z|Z]; auto.
+    + rewrite nth_upd_other by congruence. exact (A i n s qs h q p0 Hc Hq Ow Ob).
+  - intros i n s qs h q p0 Hc Hq Ow. unfold set_phase. cbn [c_ops with_ops]. rewrite nth_upd_length. exact (B i n s qs h q p0 Hc Hq Ow).
+  - intros a p0 rid st Ha. unfold set_phase. cbn [c_ops with_ops]. rewrite nth_upd_length. exact (H a p0 rid st Ha).
+Qed.
+
+Lemma restart_op_X pend ex C p rid : XInv pend ex C -> free pend C p -> XInv pend ex (restart_op C p rid).
+Proof.
+  intros [A B D F G H R] Fr. constructor; change (cores (restart_op C p rid)) with (cores C);
+    change (c_clients (restart_op C p rid)) with (c_clients C); change (c_direct (restart_op C p rid)) with (c_direct C);
+    change (c_boots (restart_op C p rid)) with (c_boots C); try assumption.
+  - intros i n s qs h q p0 Hc Hq Ow Ob. unfold restart_op. cbn [c_ops with_ops]. destruct (Nat.eq_dec p0 p) as [->|N].
+    + exfalso. destruct (Fr i n s qs h q Hc Hq Ow) as [Z1 Z2]. destruct Ob as [Z|Z]; auto.
+    + rewrite nth_upd_other by congruence. exact (A i n s qs h q p0 Hc Hq Ow Ob).
+  - intros i n s qs h q p0 Hc Hq Ow. unfold restart_op. cbn [c_ops with_ops]. rewrite nth_upd_length. exact (B i n s qs h q p0 Hc Hq Ow).
+  - intros a p0 rid0 st Ha. unfold restart_op. cbn [c_ops with_ops]. rewrite nth_upd_length. exact (H a p0 rid0 st Ha).
+Qed.
+
 Lemma free_no_obl pend C p ph : free pend C p ->
   forall i n s qs h q, nth_error (cores C) i = Some (n, s, qs) -> nth_error qs h = Some q -> q_owner q = OfOp p ->
      (~ sfired s h \/ In (i, h) pend) -> exists rest, ph = PKnown rest i h.
@@ -837,6 +861,173 @@ Proof.
 Qed.
 End LevelX.
 
+(* ------------------------------------------------------------------ an operation none of whose requests is unresolved stays so while
+   OTHER operations move (used for _load_topic_partitions: nothing that happens while its response is merged gives it a
+   request back) *)
+Lemma free_cores pend C C' q : cores C' = cores C -> free pend C q -> free pend C' q.
+Proof. apply free_frame. Qed.
+
+Lemma free_less pend pend' C q : incl pend' pend -> free pend C q -> free pend' C q.
+Proof. intros I F i n s qs h q0 Hc Hq Ow. destruct (F i n s qs h q0 Hc Hq Ow) as [A B]. split; [exact A | intro Z; exact (B (I _ Z))]. Qed.
+
+Lemma apply_bc_free pend C i e q : AllCInv C -> is_make e = false -> free pend C q ->
+  free (tag i (def_handles (snd (apply_bc C i e))) ++ pend) (fst (apply_bc C i e)) q.
+Proof.
+  intros A M F. unfold apply_bc. destruct (nth_error (c_bcs C) i) as [b|] eqn:Eb; [|exact F].
+  destruct (BrokerClient.step (b_st b) e) as [s' mo] eqn:Es. cbn [fst snd].
+  destruct (fired_after_step _ _ _ _ (A i b Eb) Es) as (I' & _ & Fi).
+  pose proof (cores_nth _ _ _ Eb) as Ec.
+  intros j n s qs h q0 Hj Hq Ow. rewrite cores_set_st in Hj. apply nth_upd_inv in Hj.
+  destruct Hj as [[<- (x & Hx & E)]|[N Hj]].
+  - rewrite Ec in Hx. injection Hx as <-. unfold core_st in E. cbn [fst snd] in E. injection E as -> -> ->.
+    destruct (F i _ _ _ h q0 Ec Hq Ow) as [Z1 Z2]. split; [unfold sfired; rewrite Fi; apply in_or_app; right; exact Z1|].
+    intro Z. apply in_app_or in Z. destruct Z as [Z|Z]; [|exact (Z2 Z)].
+    unfold tag in Z. apply in_map_iff in Z. destruct Z as (h' & E & Hh). injection E as ->.
+    pose proof (ti_fired_nodup _ (ci_t _ I')) as ND. rewrite Fi in ND. apply (NoDup_app_l_notin _ _ h ND); [apply in_rev in Hh; exact Hh | exact Z1].
+  - destruct (F j n s qs h q0 Hj Hq Ow) as [Z1 Z2]. split; [exact Z1|]. intro Z. apply in_app_or in Z. destruct Z as [Z|Z]; [|exact (Z2 Z)].
+    apply pend_of_in' in Z. congruence.
+Qed.
+
+Lemma make_req_free pend C i rid expect mint ow q : AllCInv C -> (forall p, ow = OfOp p -> p <> q) -> free pend C q ->
+  free pend (fst (fst (make_req C i rid expect mint ow))) q.
+Proof.
+  intros A Ow F. unfold make_req. destruct (nth_error (c_bcs C) i) as [b|] eqn:Eb; [|exact F].
+  unfold apply_bc. rewrite Eb. destruct (BrokerClient.step (b_st b) (BrokerClient.EMake rid expect)) as [s' mo] eqn:Es.
+  destruct (fired_after_step _ _ _ _ (A i b Eb) Es) as (I' & _ & Fi). pose proof (cores_nth _ _ _ Eb) as Ec.
+  set (C1 := upd_bc C i (set_st s')).
+  assert (free pend C1 q) as F1.
+  { intros j n s qs h q0 Hj Hq Ow0. unfold C1 in Hj. rewrite cores_set_st in Hj. apply nth_upd_inv in Hj.
+    destruct Hj as [[<- (x & Hx & E)]|[N Hj]]; [|exact (F j n s qs h q0 Hj Hq Ow0)].
+    rewrite Ec in Hx. injection Hx as <-. unfold core_st in E. cbn [fst snd] in E. injection E as -> -> ->.
+    destruct (F i _ _ _ h q0 Ec Hq Ow0) as [Z1 Z2]. split; [unfold sfired; rewrite Fi; apply in_or_app; right; exact Z1 | exact Z2]. }
+  destruct (raised_dup mo); [exact F1|].
+  pose proof (tr_list_core (filter (fun o => negb (is_def o)) mo) C1 i) as [SC _].
+  destruct (tr_list C1 i (filter (fun o => negb (is_def o)) mo)) as [C2 o2]. cbn [fst] in SC.
+  assert (free pend C2 q) as F2 by (apply (free_cores pend C1); assumption).
+  unfold new_timer.
+  assert (forall q1, q_owner q1 = ow -> free pend (upd_bc (with_timers C2 (c_timers C2 ++ [TReq i (length (BrokerClient.t_dlog (BrokerClient.s_t (b_st b))))])) i
+                                        (fun b0 => set_reqs (b_reqs b0 ++ [q1]) b0)) q) as G.
+  { intros q1 Eo j n s qs h q0 Hj Hq Ow0. rewrite (cores_set_reqs _ i (fun l => l ++ [q1])) in Hj.
+    change (cores (with_timers C2 _)) with (cores C2) in Hj. apply nth_upd_inv in Hj.
+    destruct Hj as [[<- (x & Hx & E)]|[N Hj]]; [|exact (F2 j n s qs h q0 Hj Hq Ow0)].
+    destruct x as [[n0 s0] qs0]. unfold core_reqs in E. cbn [fst snd] in E. injection E as -> -> ->.
+    apply nth_error_snoc_inv in Hq. destruct Hq as [Hq|[_ ->]]; [exact (F2 i _ _ _ h q0 Hx Hq Ow0)|].
+    exfalso. rewrite Eo in Ow0. exact (Ow q Ow0 eq_refl). }
+  destruct (first_def mo); cbn [fst]; apply G; reflexivity.
+Qed.
+
+Lemma get_client_free pend C cl n C1 i q : get_client C cl n = Some (C1, i) -> free pend C q -> free pend C1 q.
+Proof.
+  intros H F. unfold get_client in H. destruct (assoc n cl); [injection H as <- _; exact F|].
+  destruct (assoc n (c_brokers C)) as [a|]; [|discriminate]. injection H as <- _.
+  intros j n0 s qs h q0 Hj Hq Ow. unfold cores in Hj. cbn [with_clients with_bcs c_bcs] in Hj. rewrite map_app in Hj.
+  apply nth_error_snoc_inv in Hj. destruct Hj as [Hj|[_ Hj]]; [exact (F j n0 s qs h q0 Hj Hq Ow)|].
+  cbn in Hj. injection Hj as -> -> ->. destruct h; discriminate.
+Qed.
+
+Lemma op_fail_free pend C p r q : free pend C q -> free pend (fst (op_fail C p r)) q.
+Proof. apply free_cores. unfold op_fail. destruct (nth_error (c_ops C) p); reflexivity. Qed.
+Lemma boot_next_free pend C p hosts q : free pend C q -> free pend (fst (boot_next C p hosts)) q.
+Proof. apply free_cores. unfold boot_next. destruct (closing C); [|destruct hosts; [|reflexivity]]; unfold op_fail; destruct (nth_error (c_ops C) p); reflexivity. Qed.
+
+Lemma op_known_free : forall nodes pend C p rid q, q <> p -> AllCInv C -> free pend C q -> free pend (fst (op_known C p rid nodes)) q.
+Proof.
+  induction nodes as [|nd rest IH]; intros pend C p rid q N A F; cbn [op_known]; [apply boot_next_free; exact F|].
+  destruct (c_clients C) as [cl|] eqn:Ec; [|apply op_fail_free; exact F].
+  destruct (get_client C cl nd) as [[C1 i]|] eqn:G; [|apply op_fail_free; exact F].
+  pose proof (get_client_free _ _ _ _ _ _ q G F) as F1. pose proof (proj1 (Rmono_get_client _ _ _ _ _ Ec G A)) as A1.
+  pose proof (make_req_free pend C1 i rid true (-1) (OfOp p) q A1 ltac:(intros p0 E; injection E as <-; congruence) F1) as F2.
+  pose proof (proj1 (Rmono_make_req C1 i rid true (-1) (OfOp p) A1)) as A2.
+  destruct (make_req C1 i rid true (-1) (OfOp p)) as [[C2 r] o2]. cbn [fst] in F2, A2.
+  destruct r as [|h|h r]; cbn [fst].
+  - pose proof (IH pend C2 p rid q N A2 F2) as X. destruct (op_known C2 p rid rest). exact X.
+  - apply (free_cores pend C2); [reflexivity | exact F2].
+  - destruct r; try (pose proof (IH pend C2 p rid q N A2 F2) as X; destruct (op_known C2 p rid rest); exact X).
+    + exact F2.
+    + pose proof (op_fail_free pend C2 p RCancelled q F2) as X. destruct (op_fail C2 p RCancelled). exact X.
+Qed.
+
+Lemma on_def0_free pend C i h oc q : AllCInv C -> free ((i, h) :: pend) C q -> free pend (fst (on_def succ0 C i h oc)) q.
+Proof.
+  intros A F. assert (free pend C q) as F0 by (apply (free_less ((i, h) :: pend)); [intros x Hx; right; exact Hx | exact F]).
+  unfold on_def. destruct (nth_error (c_bcs C) i) as [b|] eqn:Eb; [|exact F0].
+  destruct (nth_error (b_reqs b) h) as [q0|] eqn:Eq; [|exact F0].
+  set (C1o1 := match q_timer q0 with
+               | Some t => (upd_creq C i h (fun q1 => mkCreq (q_owner q1) None (q_to q1)), [OCancelTimer t])
+               | None => (C, []) end).
+  assert (free pend (fst C1o1) q /\ AllCInv (fst C1o1) /\ c_ops (fst C1o1) = c_ops C) as (F1 & A1 & Eo).
+  { unfold C1o1. destruct (q_timer q0) as [tq|]; cbn [fst]; [|auto]. split; [|split; [|reflexivity]].
+    - intros j n s qs hh q1 Hj Hq Ow. destruct (upd_creq_inv _ _ _ _ _ _ _ _ Hj) as [[N Hj0]|[-> (qs0 & Hj0 & ->)]]; [exact (F0 j n s qs hh q1 Hj0 Hq Ow)|].
+      apply nth_upd_inv in Hq. destruct Hq as [[<- (q2 & Hq2 & ->)]|[N Hq]]; [exact (F0 i n s qs0 h q2 Hj0 Hq2 Ow) | exact (F0 i n s qs0 hh q1 Hj0 Hq Ow)].
+    - apply (Rmono_creq C i h); [intro; repeat split; auto | exact A]. }
+  destruct C1o1 as [C1 o1]. cbn [fst] in F1, A1, Eo.
+  destruct (q_owner q0) as [d|p] eqn:Ow0; [exact F1|].
+  assert (q <> p) as N.
+  { intros ->. destruct (F i _ _ _ h q0 (cores_nth _ _ _ Eb) Eq Ow0) as [_ Z]. apply Z. left. reflexivity. }
+  destruct (nth_error (c_ops C1) p) as [[k al rid ph]|]; [|exact F1].
+  destruct ph as [rest i' h'| | | |]; try exact F1.
+  destruct (Nat.eqb i i' && Nat.eqb h h'); [|exact F1].
+  destruct (if q_to q0 then RTimedOut else res_of oc);
+    try (pose proof (op_known_free rest pend C1 p rid q N A1 F1) as X; destruct (op_known C1 p rid rest); exact X).
+  - exact F1.
+  - pose proof (op_fail_free pend C1 p RCancelled q F1) as X. destruct (op_fail C1 p RCancelled). exact X.
+Qed.
+
+Lemma Rmono_succ0 C p f : Rmono C (fst (succ0 C p f)).
+Proof. apply Rmono_refl. Qed.
+
+Lemma proc0_free : forall os pend C i q, AllCInv C -> free (tag i (def_handles os) ++ pend) C q -> free pend (fst (proc succ0 C i os)) q.
+Proof.
+  induction os as [|o os IH]; intros pend C i q A F; cbn [proc]; [exact F|].
+  assert (free (tag i (def_handles os) ++ pend) (fst (match o with BrokerClient.ODef h oc => on_def succ0 C i h oc | _ => tr_out C i o end)) q
+          /\ AllCInv (fst (match o with BrokerClient.ODef h oc => on_def succ0 C i h oc | _ => tr_out C i o end))) as [F1 A1].
+  { destruct o; try (split; [apply (free_cores _ C); [apply (proj1 (tr_out_core C i _)) | exact F]
+                                | apply (proj1 (mono_cores C _ (proj1 (tr_out_core C i _)) A))]).
+    split; [apply on_def0_free; [exact A | exact F] | exact (proj1 (Rmono_on_def succ0 Rmono_succ0 C i h o A))]. }
+  destruct (match o with BrokerClient.ODef h oc => on_def succ0 C i h oc | _ => tr_out C i o end) as [C1 o1]. cbn [fst] in F1, A1.
+  pose proof (IH pend C1 i q A1 F1) as X. destruct (proc succ0 C1 i os). exact X.
+Qed.
+
+Lemma close_each_free : forall l pend C q, AllCInv C -> free pend C q -> free pend (fst (close_each C l)) q.
+Proof.
+  induction l as [|i l IH]; intros pend C q A F; cbn [close_each]; [exact F|].
+  assert (free pend (fst (bc_event succ0 C i BrokerClient.EClose)) q) as F1.
+  { unfold bc_event. pose proof (apply_bc_free pend C i BrokerClient.EClose q A eq_refl F) as X.
+    pose proof (proj1 (Rmono_apply C i BrokerClient.EClose A)) as A1.
+    destruct (apply_bc C i BrokerClient.EClose) as [C1 mo]. cbn [fst snd] in X, A1. apply proc0_free; assumption. }
+  pose proof (proj1 (Rmono_bc_event succ0 Rmono_succ0 C i BrokerClient.EClose A)) as A1.
+  destruct (bc_event succ0 C i BrokerClient.EClose) as [C1 o1]. cbn [fst] in *.
+  pose proof (IH pend C1 q A1 F1) as X. destruct (close_each C1 l). exact X.
+Qed.
+
+Lemma merge_free pend C payload all q : AllCInv C -> free pend C q -> free pend (fst (merge C payload all)) q.
+Proof.
+  intros A F. unfold merge. destruct (parse_meta payload) as [[brokers topics]|]; [|exact F].
+  set (rm := all && _).
+  assert (free pend (fst (update_brokers C brokers rm)) q) as F1.
+  { unfold update_brokers. set (C1 := with_brokers C _).
+    assert (free pend C1 q) as Fa by (apply (free_cores pend C); [reflexivity | exact F]).
+    assert (AllCInv C1) as Aa by (apply (proj1 (mono_cores C C1 eq_refl A))).
+    destruct (c_clients C1) as [cl|]; [|destruct (dict_update [] brokers); [destruct rm|]; exact Fa].
+    assert (forall bs C0, AllCInv C0 -> free pend C0 q -> free pend (update_each C0 cl bs) q /\ AllCInv (update_each C0 cl bs)) as Ue.
+    { induction bs as [|[n a] bs IH]; intros C0 A0 F0; cbn [update_each]; [auto|]. destruct (assoc n cl) as [i|]; [|apply IH; assumption].
+      apply IH; [exact (proj1 (Rmono_apply C0 i (BrokerClient.EUpdate true a) A0))|].
+      pose proof (apply_bc_free pend C0 i (BrokerClient.EUpdate true a) q A0 eq_refl F0) as X.
+      assert (snd (apply_bc C0 i (BrokerClient.EUpdate true a)) = []) as E
+        by (unfold apply_bc; destruct (nth_error (c_bcs C0) i); reflexivity).
+      rewrite E in X. exact X. }
+    destruct (Ue (dict_update [] brokers) C1 Aa Fa) as [F2 A2].
+    destruct rm; [|exact F2]. destruct (flat_map _ _) as [|i0 idx]; [exact F2|].
+    unfold close_brokerclients.
+    set (C2 := with_clients (update_each C1 cl (dict_update [] brokers)) _).
+    assert (free pend C2 q) as F3 by (apply (free_cores pend (update_each C1 cl (dict_update [] brokers))); [reflexivity | exact F2]).
+    assert (AllCInv C2) as A3 by (apply (proj1 (mono_cores _ C2 eq_refl A2))).
+    pose proof (close_each_free (i0 :: idx) pend C2 q A3 F3) as F4. destruct (close_each C2 (i0 :: idx)) as [C3 o3]. cbn [fst] in F4.
+    set (C3' := with_dl C3 _). pose proof (dl_refresh_core C3') as [SC _]. destruct (dl_refresh C3') as [C4 o4]. cbn [fst] in *.
+    apply (free_cores pend C3'); [exact SC|]. apply (free_cores pend C3); [reflexivity | exact F4]. }
+  destruct (update_brokers C brokers rm) as [C1 o1]. cbn [fst] in *. apply (free_cores pend C1); [reflexivity | exact F1].
+Qed.
+
 (* ------------------------------------------------------------------ closing broker clients (level 0) *)
 Lemma succ0_some C p f : Rsome C (fst (succ0 C p f)).
 Proof. intro H. exact H. Qed.
@@ -1003,10 +1194,18 @@ Proof.
   assert (XInv pend ex (set_phase C p PDone)) as X1 by (apply set_phase_X; [exact X | exact Lp | apply free_no_obl; exact Fr]).
   assert (TInvC pend (set_phase C p PDone)) as T1 by (eapply TInvC_same_core; [exact T | apply set_phase_core]).
   assert (PB (set_phase C p PDone)) as P1 by (eapply PB_bcs; [|exact P]; reflexivity).
-  destruct (o_kind o =? 1); [|cbn [fst snd]; split; [exact X1 | ok_list]].
+  assert (free pend (set_phase C p PDone) p) as Fr1 by (apply (free_cores pend C); [reflexivity | exact Fr]).
   unfold closing. change (c_clients (set_phase C p PDone)) with (c_clients C). destruct (c_clients C); [|congruence].
-  destruct (merge_X pend ex _ (drop 4 f) (o_all o) T1 ND P1 X1) as [X2 Ok2].
-  destruct (merge (set_phase C p PDone) (drop 4 f) (o_all o)). cbn [fst snd] in *. split; [exact X2 | apply okout_app; [exact Ok2 | ok_list]].
+  destruct (o_kind o =? 1).
+  - destruct (merge_X pend ex _ (drop 4 f) (o_all o) T1 ND P1 X1) as [X2 Ok2].
+    destruct (merge (set_phase C p PDone) (drop 4 f) (o_all o)). cbn [fst snd] in *. split; [exact X2 | apply okout_app; [exact Ok2 | ok_list]].
+  - destruct (is_ltp (o_kind o)); [|cbn [fst snd]; split; [exact X1 | ok_list]].
+    destruct (merge_X pend ex _ (drop 4 f) false T1 ND P1 X1) as [X2 Ok2].
+    pose proof (merge_free pend _ (drop 4 f) false p (proj1 P1) Fr1) as Fr2.
+    destruct (merge (set_phase C p PDone) (drop 4 f) false) as [C2 o2]. cbn [fst snd] in *.
+    destruct (missing (drop 4 f)); [|cbn [fst snd]; split; [exact X2 | apply okout_app; [exact Ok2 | ok_list]]].
+    unfold new_timer. cbn [fst snd]. split; [|apply okout_app; [exact Ok2 | ok_list]].
+    apply set_phase_X_free; [eapply XInv_frame; [| | | | |exact X2]; reflexivity | apply (free_cores pend C2); [reflexivity | exact Fr2]].
 Qed.
 
 (* an event of broker client i in an open client *)
@@ -1070,6 +1269,7 @@ Proof.
   set (Y := match nth_error (c_ops C) p with
             | Some (mkOp _ _ _ (PBootConn a rest)) => let (C', o') := boot_next (set_boot C a KDead) p rest in (C', OBootCancel a :: o')
             | Some (mkOp _ _ _ (PBootReq a t rest)) => let (C', o') := boot_next C p rest in (C', OCancelTimer t :: OBootLose a :: o')
+            | Some (mkOp _ _ _ (PWait t)) => let (C', o') := op_fail C p RCancelled in (C', OCancelTimer t :: o')
             | _ => (C, []) end).
   assert (XInv [] ex (fst Y) /\ okout (snd Y)) as [X1 Ok1].
   { unfold Y. destruct (nth_error (c_ops C) p) as [[k al rid ph]|] eqn:Eo; [|split; [exact X | apply okout_nil]].
@@ -1081,7 +1281,10 @@ Proof.
       destruct (boot_next (set_boot C a KDead) p rest). cbn [fst snd] in *. split; [exact Xr | apply (okout_app [_]); [ok_list | exact Okr]].
     - assert (free [] C p) as Fr by (apply (free_of_phase [] ex _ p _ X Eo); intros; discriminate).
       destruct (boot_next_X [] ex C p rest X Lp Fr) as [Xr Okr].
-      destruct (boot_next C p rest). cbn [fst snd] in *. split; [exact Xr | apply (okout_app [_; _]); [ok_list | exact Okr]]. }
+      destruct (boot_next C p rest). cbn [fst snd] in *. split; [exact Xr | apply (okout_app [_; _]); [ok_list | exact Okr]].
+    - assert (free [] C p) as Fr by (apply (free_of_phase [] ex _ p _ X Eo); intros; discriminate).
+      destruct (op_fail_X [] ex C p RCancelled X Lp Fr) as [Xr Okr].
+      destruct (op_fail C p RCancelled). cbn [fst snd] in *. split; [exact Xr | apply (okout_app [_]); [ok_list | exact Okr]]. }
   destruct Y as [C1 o1]. cbn [fst snd] in *. destruct (IH ex C1 (S p) X1) as [Xr Okr]. destruct (cancel_boots C1 n (S p)). cbn [fst snd] in *.
   split; [exact Xr | apply okout_app; assumption].
 Qed.
@@ -1196,7 +1399,7 @@ Proof.
     + exact (x_rx _ _ _ X i _ _ _ (cores_nth _ _ _ Hb)).
     + split; [apply id4_ok | exact Sz].
   - (* ETimer *)
-    destruct (nth_error (c_timers C) t) as [[i h|i|p a]|]; [| | |split; [exact X | apply okout_nil]].
+    destruct (nth_error (c_timers C) t) as [[i h|i|p a|p]|]; [| | | |split; [exact X | apply okout_nil]].
     + unfold creq_at. destruct (nth_error (c_bcs C) i) as [b|] eqn:Eb; [|split; [exact X | apply okout_nil]].
       destruct (nth_error (b_reqs b) h) as [[ow [t'|] to]|] eqn:Eq; try (split; [exact X | apply okout_nil]).
       destruct (Nat.eqb t t'); [|split; [exact X | apply okout_nil]].
@@ -1247,6 +1450,18 @@ Proof.
       assert (free [] C p) as Fr by (apply (free_of_phase [] [] _ p _ X Eo); intros; discriminate).
       destruct (boot_next_X [] [] C p rest X Lp Fr) as [Xr Okr]. destruct (boot_next C p rest). cbn [fst snd] in *.
       split; [exact Xr | apply (okout_app [_]); [ok_list | exact Okr]].
+    + unfold phase_of. destruct (nth_error (c_ops C) p) as [[k al rid0 ph]|] eqn:Eo; [|split; [exact X | apply okout_nil]]. cbn [o_phase].
+      destruct ph; try (split; [exact X | apply okout_nil]). destruct (Nat.eqb t t0); [|split; [exact X | apply okout_nil]].
+      unfold next_id. cbn [fst snd]. set (C1 := with_corr C _). set (C2 := restart_op C1 p _).
+      assert ((p < length (c_ops C))%nat) as Lp by (apply nth_error_Some; congruence).
+      assert (free [] C p) as Fr by (apply (free_of_phase [] [] _ p _ X Eo); intros; discriminate).
+      assert (XInv [] [] C1) as X1 by (eapply XInv_frame; [| | | | |exact X]; reflexivity).
+      assert (free [] C1 p) as Fr1 by (apply (free_cores [] C); [reflexivity | exact Fr]).
+      pose proof (restart_op_X [] [] C1 p ((c_corr C + 1) mod 2147483648) X1 Fr1) as X2. fold C2 in X2.
+      assert (free [] C2 p) as Fr2 by (apply (free_cores [] C1); [reflexivity | exact Fr1]).
+      assert (TInvC [] C2) as T2 by (eapply TInvC_same_core; [exact T | unfold C2, C1; score]).
+      assert ((p < length (c_ops C2))%nat) as Lp2 by (unfold C2, restart_op; cbn [c_ops with_ops with_corr]; rewrite nth_upd_length; exact Lp).
+      destruct (c_clients C2); [apply op_known_X; assumption | apply op_fail_X; assumption].
   - (* EBootOk *)
     destruct (nth_error (c_boots C) a) as [[[p rid] [| |]]|] eqn:Ea; try (split; [exact X | apply okout_nil]).
     unfold phase_of. destruct (nth_error (c_ops C) p) as [[k al rid0 ph]|] eqn:Eo; [|split; [exact X | apply okout_nil]]. cbn [o_phase].
